@@ -48,6 +48,7 @@ THEOREMS = [
 REQUIRED_COUNTERS = [
     "kvtype_u32", "kvtype_f32", "kvtype_bool", "kvtype_str", "kvtype_ai32", "kvtype_au32", "kvtype_af32", "kvtype_astr",
     "kv_empty_string", "kv_empty_array", "kv_array_collected", "kv_array_not_collected",
+    "kv_array_at_limit", "kv_array_limit_plus_1",
     "cases_no_tensor", "cases_ge3_tensors", "cases_sort_reordered", "cases_alignment_not_32",
     "tensor_size_not_multiple_of_32", "decode_at_offset_cases", "failing_source_cases",
     "tensor_size_checked_independently",
@@ -104,7 +105,7 @@ def run(ctx):
     # "every layer cut out of the upload is exactly one model" on the layer blobs the server wrote (L2)
     if not ctx.replay:
         arc, aout, apidir = ctx.go_test("./server/", {"server/zz_verif_c10_test.go": "server/zz_verif_c10_test.go"},
-                                        "^TestVerifC10API$", env={"VERIF_N": ctx.scale(12, 200)}, timeout=1500)
+                                        "^TestVerifC10API$", env={"VERIF_N": ctx.scale(12, 200), "VERIF_C10_MODES": "create"}, timeout=1500)
         if arc != 0:
             ctx.violation("driver-failed", "api", aout[-1500:], no_input=True)
         ast = ctx.read_stats(apidir)
